@@ -583,6 +583,66 @@ def handle_errors_violation(levels, fail_on_warning):
     return None if got == want else f"levels={levels} fail_on_warning={fail_on_warning}: exit={got}, expected {want}"
 
 
+# ---- component accounting of the schema fixpoints (bounded C07 / C06) ---------------------------------------------------------
+
+_ACC = {
+    "Good": {"type": "object", "properties": {"x": {"type": "string"}}},
+    "Alias": {"allOf": [{"$ref": "#/components/schemas/Target"}]},                      # forward reference: needs a second round
+    "Target": {"type": "object", "properties": {"t": {"type": "integer"}}},
+    "Broken": {"type": "string", "enum": ["A", 1]},                                      # fails in every round
+    "thing": {"type": "object", "properties": {"a": {"type": "string"}}},
+    "Thing": {"type": "object", "properties": {"b": {"type": "string"}}},                # same class name as `thing`
+    "Child": {"allOf": [{"$ref": "#/components/schemas/Target"}, {"type": "object", "properties": {"c": {"type": "string"}}}]},
+    "UsesBroken": {"type": "object", "properties": {"b": {"$ref": "#/components/schemas/Broken"}}},
+    "Color": {"type": "string", "enum": ["red", "green"]},
+}
+
+
+def schema_accounting_cases(tier):
+    names = list(_ACC)
+    out = []
+    for k in (3, 4):
+        combos = list(itertools.permutations(names, k))
+        if k == 4 and tier != "thorough":
+            import random
+            combos = random.Random(5).sample(combos, 1500)
+        out += [{"order": list(c)} for c in combos]
+    return out
+
+
+def schema_accounting(case):
+    """every object / enum component is a generated class or is named by a diagnostic"""
+    doc = _base(schemas={k: _ACC[k] for k in case["order"]})
+    try:
+        data = _parse(doc)
+    except _Timeout:
+        return "parser did not terminate"
+    except BaseException as e:  # noqa
+        return f"parser raised {type(e).__name__}: {str(e)[:100]}"
+    from openapi_python_client import utils
+    classes = {m.class_info.name for m in data.models} | {e.class_info.name for e in data.enums}
+    texts = " ".join(f"{getattr(e, 'header', '')} {getattr(e, 'detail', '')}" for e in data.errors)
+    present = set(case["order"])
+    missing = []
+    for name in case["order"]:
+        if name == "Alias" and "Target" in present:
+            continue                       # a single-reference wrapper has no class of its own: it IS Target
+        cname = str(utils.ClassName(name, "field_"))
+        twin = {"thing": "Thing", "Thing": "thing"}.get(name)
+        if cname in classes and not (twin in present):
+            continue
+        if f"/components/schemas/{name}" in texts or f"schema {name}" in texts:
+            continue
+        if twin in present and cname in classes:
+            # two components, one class: the other one must be named by a diagnostic
+            if f"/components/schemas/{twin}" in texts or f"/components/schemas/{name}" in texts:
+                continue
+        missing.append(name)
+    if missing:
+        return f"components {missing} are neither generated (classes {sorted(classes)}) nor named by a diagnostic"
+    return None
+
+
 # ---- hash-seed independence (native, bounded) -----------------------------------------------------------------------------
 
 def hashseed_violation(seeds=(0, 1, 2, 3, 4, 5)):
@@ -596,11 +656,12 @@ def hashseed_violation(seeds=(0, 1, 2, 3, 4, 5)):
         "import sys, json, hashlib, shutil\n"
         "sys.path.insert(0, sys.argv[1]); sys.path.insert(0, sys.argv[2])\n"
         "from pyvc.replay import generate_tree\n"
-        "import contracts.models_f as mf, contracts.endpoints_f as ef\n"
+        "import contracts.models_f as mf, contracts.endpoints_f as ef, contracts.determinism as det\n"
         "from pyvc import sites\n"
         "out = {}\n"
         "for name, doc, cfg in (('models', mf.document('3.1.0')[0], {}), ('models-lit', mf.document('3.0.3')[0], {'literal_enums': True}),\n"
-        "                       ('endpoints', ef.document('3.0.3')[0], {}), ('slots', sites.slot_document(), {})):\n"
+        "                       ('endpoints', ef.document('3.0.3')[0], {}), ('slots', sites.slot_document(), {}),\n"
+        "                       ('determinism', det.determinism_document(), {}), ('determinism-lit', det.determinism_document(), {'literal_enums': True})):\n"
         "    import contextlib, io\n"
         "    with contextlib.redirect_stdout(io.StringIO()):\n"
         "        errors, o, files, tmp = generate_tree(document=doc, config=cfg)\n"
